@@ -195,15 +195,19 @@ def run(prop, tier):
     res = C.Result(prop, tier)
     proof = C.proof_step(["Props/C11.v"])
     proof["trusted"] = [
-        "model IO/Source.v written by hand from io.py; BufferAudioSource.read / position (get, set) / position_ms (get) are translated from /repo on every run (harness/py2coq/misc.py, group buf) and proved equal to bstep for all states and arguments (TieBuf.v); everything else (seconds / ms setters, file and stdin sources) is tied by correspondence (seeded random + exhaustive short sequences)",
+        "model IO/Source.v written by hand from io.py; BufferAudioSource.read / position (get, set) / position_ms (get) are translated from /repo on every run (harness/py2coq/misc.py, group buf) and proved equal to bstep for all states and arguments (TieBuf.v); FileAudioSource.read with the _read_from_stream of the raw-file, wave-file and stdin sources inlined likewise (group fsrc, TieFsrc.v = fstep; the primitives f.read(n) and wave.readframes(n) are given their documented meaning by the translator: at most n bytes / frames from the cursor, everything left for None / -1); open / close / rewind and the seconds / ms setters are tied by correspondence (seeded random + exhaustive short sequences + large requests)",
         "extraction (ExtrOcamlBasic only) + OCaml driver, cross-checked by vm_compute on a sample",
         "file-system, wave module and sys.stdin replacement are exercised, not modelled; PyAudioSource cannot be run here",
     ]
     C.import_auditok()
     tie = misctie.tie_group("buf")
-    proof["tie_obligations"] = tie["obligations"]
-    if not tie["ok"]:
-        proof["undischarged"] = tie["obligations"]
+    tie_f = misctie.tie_group("fsrc")
+    proof["tie_obligations"] = tie["obligations"] + tie_f["obligations"]
+    proof["undischarged"] = ([] if tie["ok"] else tie["obligations"]) + ([] if tie_f["ok"] else tie_f["obligations"])
+    if not tie_f["ok"]:
+        tie = {"ok": False, "obligations": tie["obligations"] + tie_f["obligations"], "detail": ((tie["detail"] + " || ") if not tie["ok"] else "") + tie_f["detail"]}
+    elif tie["ok"]:
+        tie = dict(tie, detail=tie["detail"] + " || " + tie_f["detail"])
     quick = tier == "quick"
     r = C.rng("C11")
     cases, impl, meta = [], [], []
